@@ -99,7 +99,9 @@ func (fs *ReaderFS) read(r io.Reader) {
 		fs.unarchiveErr.Store(err)
 	}
 	fs.callerCancel()
+	verifhook.Yield("signal@tar/fs.go:96")
 	fs.readerDone()
+	verifhook.Yield("signal@tar/fs.go:97")
 
 	if closer, ok := r.(io.Closer); ok {
 		_ = closer.Close()
@@ -245,21 +247,27 @@ func (fs *ReaderFS) readProcessFile(
 			verifhook.Start("go@tar/fs.go:227", verifTok)
 			err := fs.writeFile(p, info, smallBuf, n, nil, nil)
 			smallBuf.Done()
+			verifhook.Yield("signal@tar/fs.go:229")
 			if err != nil {
 				errs <- err
 				verifhook.Yield("wake@tar/fs.go:231")
 			}
 			wg.Done()
+			verifhook.Yield("signal@tar/fs.go:233")
+
+			// prep large file in the foreground to finish reading the file (going to next file in tar invalidates the file reader)
 		}(verifhook.SpawnToken("go@tar/fs.go:227"))
 
 		return nil
 	case nil:
-		// prep large file in the foreground to finish reading the file (going to next file in tar invalidates the file reader)
+
 		bigBuf := bigPool.Wait()
 		verifhook.Yield("wake@tar/fs.go:238")
 		err := fs.writeFile(p, info, smallBuf, n, reader, bigBuf)
 		bigBuf.Done()
+		verifhook.Yield("signal@tar/fs.go:240")
 		smallBuf.Done()
+		verifhook.Yield("signal@tar/fs.go:241")
 		return err
 	default:
 		return err
